@@ -231,16 +231,17 @@ theorem exec_advanceLine (h : Params) (r : Row) (la : Int) (hl : r.line < 2 ^ 64
   rw [applyLineAdvance_eq r la hl, if_neg (by omega), Nat.mod_eq_of_lt (by omega)]
 
 /-- one step of `traceInstrs` for an instruction that produces no row -/
-theorem trace_noEmit (h : Params) (r r' : Row) (i : Instr) (is : List Instr)
-    (hx : execute h r i = (r', .noEmit)) : traceInstrs h r (i :: is) = traceInstrs h r' is := by
+theorem trace_noEmit (h : Params) (r r' : Row) (b : Bool) (i : Instr) (is : List Instr)
+    (hx : execute h r i = (r', .noEmit)) : traceInstrs h r b (i :: is) = traceInstrs h r' b is := by
   rw [traceInstrs, hx]
 
 /-- one step of `traceInstrs` for an instruction that produces a row -/
-theorem trace_emit (h : Params) (r r' : Row) (i : Instr) (is : List Instr)
+theorem trace_emit (h : Params) (r r' : Row) (b : Bool) (i : Instr) (is : List Instr)
     (hx : execute h r i = (r', .emit)) (hnt : r'.tombstone = false) :
-    traceInstrs h r (i :: is) = Ev.row r' :: traceInstrs h (reset h r') is := by
+    traceInstrs h r b (i :: is) =
+      Ev.row r' :: traceInstrs h (reset h r') (!r'.endSequence) is := by
   rw [traceInstrs, hx]
-  simp [hnt]
+  simp [skipRow, hnt]
 
 
 theorem finalPart_spec (m : Mode) (e : Enc) (h : Params) (ha : Agrees h e) (version : Nat) (r : Row)
@@ -310,10 +311,11 @@ theorem advanceInstrs_trace (m : Mode) (e : Enc) (h : Params) (ha : Agrees h e) 
     (hnt : r.tombstone = false) (hsz : h.addrSize ≤ 8) (hmax1 : 1 ≤ h.maxOps)
     (hidx : r.opIndex < h.maxOps) (hn : r.opIndex + oa < 2 ^ 64)
     (hfit : (advBy h r oa).address ≤ onesSized h.addrSize) :
-    ∃ is, advanceInstrs m e la oa = .ok is ∧ ∀ rest : List Instr,
-      traceInstrs h r (is.map (WInstr.toInstr version) ++ rest) =
+    ∃ is, advanceInstrs m e la oa = .ok is ∧ ∀ (b : Bool) (rest : List Instr),
+      traceInstrs h r b (is.map (WInstr.toInstr version) ++ rest) =
         Ev.row (advBy h { r with line := ((r.line : Int) + la).toNat } oa) ::
-          traceInstrs h (reset h (advBy h { r with line := ((r.line : Int) + la).toNat } oa)) rest := by
+          traceInstrs h (reset h (advBy h { r with line := ((r.line : Int) + la).toNat } oa))
+            (!r.endSequence) rest := by
   obtain ⟨pl, lis, hL, hlo, hhi, hp255, hlcase⟩ := linePart_spec e la h1 h2 hr hlr hla
   obtain ⟨po, us', ois, hO, hle, hocase⟩ :=
     opPart_spec m e (pl - e.lineBase).toNat (decide (pl ≠ 0)) oa (by omega) hp255
@@ -332,8 +334,8 @@ theorem advanceInstrs_trace (m : Mode) (e : Enc) (h : Params) (ha : Agrees h e) 
   let r2 : Row := { advBy h r (oa - po) with line := L1 }
   have hmono : ∀ n, n ≤ oa → (advBy h r n).address ≤ onesSized h.addrSize := fun n hn' =>
     Nat.le_trans (advBy_address_mono h r n oa hn') hfit
-  have stepL : ∀ tail, traceInstrs h r (lis.map (WInstr.toInstr version) ++ tail) = traceInstrs h r1 tail := by
-    intro tail
+  have stepL : ∀ (b : Bool) tail, traceInstrs h r b (lis.map (WInstr.toInstr version) ++ tail) = traceInstrs h r1 b tail := by
+    intro b tail
     rcases hlcase with ⟨hp, hlis⟩ | ⟨hp, hlis⟩
     · subst hlis
       have : r1 = r := by
@@ -348,9 +350,9 @@ theorem advanceInstrs_trace (m : Mode) (e : Enc) (h : Params) (ha : Agrees h e) 
         have : ((r.line : Int) + la - pl).toNat = ((r.line : Int) + la).toNat := by omega
         rw [this]
       rw [this]
-      exact trace_noEmit h r _ _ _ hx
-  have stepO : ∀ tail, traceInstrs h r1 (ois.map (WInstr.toInstr version) ++ tail) = traceInstrs h r2 tail := by
-    intro tail
+      exact trace_noEmit h r _ b _ _ hx
+  have stepO : ∀ (b : Bool) tail, traceInstrs h r1 b (ois.map (WInstr.toInstr version) ++ tail) = traceInstrs h r2 b tail := by
+    intro b tail
     rcases hocase with ⟨hois, hp, _⟩ | ⟨hois, hp, _⟩ | ⟨hois, hp, _⟩
     · subst hois
       have : r2 = r1 := by
@@ -366,7 +368,7 @@ theorem advanceInstrs_trace (m : Mode) (e : Enc) (h : Params) (ha : Agrees h e) 
         have : oa - po = 242 / h.lineRange := by rw [hlrg]; omega
         rw [this]; rfl
       rw [this]
-      exact trace_noEmit h r1 _ _ _ hx
+      exact trace_noEmit h r1 _ b _ _ hx
     · subst hois
       have hx := exec_advancePc h r1 oa hnt hsz hmax1 hidx hn hfit
       have : r2 = advBy h r1 oa := by
@@ -374,7 +376,7 @@ theorem advanceInstrs_trace (m : Mode) (e : Enc) (h : Params) (ha : Agrees h e) 
         have : oa - po = oa := by omega
         rw [this]; rfl
       rw [this]
-      exact trace_noEmit h r1 _ _ _ hx
+      exact trace_noEmit h r1 _ b _ _ hx
   -- the final instruction
   have hus : us' = false → pl = 0 ∧ po = 0 := by
     intro hu
@@ -409,17 +411,17 @@ theorem advanceInstrs_trace (m : Mode) (e : Enc) (h : Params) (ha : Agrees h e) 
   · unfold advanceInstrs
     rw [hL]
     simp only [hO, hF, Out.bind_ok, Out.pure_eq]
-  · intro rest
+  · intro b rest
     simp only [List.map_append, List.append_assoc, List.map_cons, List.map_nil, List.cons_append,
       List.nil_append]
     rw [stepL, stepO]
-    exact trace_emit h r2 _ _ _ hxF hnt
+    exact trace_emit h r2 _ b _ _ hxF hnt
 
-theorem trace_resetFields (h : Params) (version : Nat) (r : Row) (row : WRow) (tail : List Instr)
+theorem trace_resetFields (h : Params) (version : Nat) (r : Row) (b : Bool) (row : WRow) (tail : List Instr)
     (h0 : r.discriminator = 0 ∧ r.basicBlock = false ∧ r.prologueEnd = false ∧ r.epilogueBegin = false) :
-    traceInstrs h r ((resetFieldInstrs row).map (WInstr.toInstr version) ++ tail) =
+    traceInstrs h r b ((resetFieldInstrs row).map (WInstr.toInstr version) ++ tail) =
       traceInstrs h { r with discriminator := row.discriminator, basicBlock := row.basicBlock,
-                             prologueEnd := row.prologueEnd, epilogueBegin := row.epilogueBegin } tail := by
+                             prologueEnd := row.prologueEnd, epilogueBegin := row.epilogueBegin } b tail := by
   obtain ⟨hd, hb, hp, he⟩ := h0
   cases r
   simp only at hd hb hp he
@@ -429,12 +431,12 @@ theorem trace_resetFields (h : Params) (version : Nat) (r : Row) (row : WRow) (t
     cases c4 : row.epilogueBegin <;>
     simp [c1, traceInstrs, execute, WInstr.toInstr]
 
-theorem trace_stickyFields (h : Params) (version : Nat) (r : Row) (prev row : WRow) (tail : List Instr)
+theorem trace_stickyFields (h : Params) (version : Nat) (r : Row) (b : Bool) (prev row : WRow) (tail : List Instr)
     (hs : r.isStmt = prev.isStmt) (hf : r.file = fileRaw version prev.file)
     (hc : r.column = prev.column) (hi : r.isa = prev.isa) :
-    traceInstrs h r ((stickyFieldInstrs prev row).map (WInstr.toInstr version) ++ tail) =
+    traceInstrs h r b ((stickyFieldInstrs prev row).map (WInstr.toInstr version) ++ tail) =
       traceInstrs h { r with isStmt := row.isStmt, file := fileRaw version row.file,
-                             column := row.column, isa := row.isa } tail := by
+                             column := row.column, isa := row.isa } b tail := by
   cases r
   simp only at hs hf hc hi
   subst hs hf hc hi
